@@ -14,7 +14,7 @@ the reader / writer drivers).
                            the range of its type in every reachable abstract state: either the trip count is bounded by a
                            literal-initialised counter (digits x base), or the body tests x against a limit first
                            (opl_parse_int).  Unsigned wrap counts as a violation too (a wrapped hex escape is a wrong value).
-                           FIRES on today's tree: the exponent scaling loop of string_to_location_coordinate (KNOWN, F6).
+                           (Found F6, the exponent scaling loop of string_to_location_coordinate; fixed in /repo since.)
  S1-strto-range-rejected   (clause 2) assuming strtoll/strtol/strtoul returned its saturation value (LLONG_MIN/LLONG_MAX,
                            ULONG_MAX) with the input fully consumed, no `return <converted value>` is reachable: every path
                            ends in a throw or (str_to_int's documented convention) returns a constant.
@@ -37,11 +37,12 @@ the reader / writer drivers).
                            string_to_location_coordinate: assuming the character left at the returned position is not NUL,
                            no normal return is reachable (set_lon / set_lat; the *_partial variants take `const char**`).
  N1-negation-excludes-minimum  (clause 3) the operand interval of every non-constant signed `-v` excludes the minimum of its
-                           type.  FIRES on today's tree: OutputBlock::output_int (KNOWN).
+                           type.  (Found F17, OutputBlock::output_int; fixed in /repo since.)
  C1-narrowing-in-range     (clause 4) every value-changing integral conversion (explicit or implicit, narrower or differently
                            signed target) of a *parsed* value -- a local that accumulates digits or holds a strto* result, or
                            the result of a text-parsing function of the scope -- has an operand interval inside the target
-                           type.  FIRES on today's tree: Timestamp(const char*) (KNOWN).
+                           type; the operand of a call is the callee's return-value interval over all its normal returns (range
+                           test inside parse_timestamp).  (Found F18, Timestamp(const char*); fixed in /repo since.)
  D1-digit-validated        every `c - '0'` / `c - 'a'` / `c - 'A'` on a character read from the input evaluates inside 0..9 /
                            0..5 in every state, i.e. only characters that were range-tested are converted to digit values
                            (parse_timestamp's 14 positions, the coordinate parser, opl_parse_int, opl_parse_escaped).
@@ -63,23 +64,12 @@ from .. import c13_util as U
 from ..errdisc import SPECIAL, is_extern_c, guards
 
 KNOWN = [
-    ('A1-accum-bounded',
-     'osmium::detail::string_to_location_coordinate#acc1.loop4:x*10',
-     'F6: after the exponent has been added, `scale` is only bounded by 8 + 99999, so `for (; scale > 0; --scale) result *= 10` '
-     'multiplies without bound (first abstract event: result in [0, 10^18) times 10); signed overflow wraps on the usual targets and '
-     'the range test afterwards sees a small number: "1e63" is accepted as 0 (and e.g. "9999999999.99999999e1" overflows) instead of '
-     'throwing invalid_location.'),
-    ('N1-negation-excludes-minimum',
-     'osmium::io::detail::OutputBlock::output_int#neg1',
-     'output_int(int64_t) negates negative values without excluding INT64_MIN (the coordinate formatter and opl_parse_int both '
-     'special-case their minimum): `value = -value` overflows, value stays negative, the digit loop runs once with value % 10 == -8 '
-     'and the OPL/XML/debug writers emit "-(" for an object id / ref of -9223372036854775808, which opl_parse_int accepts on input; '
-     'format -> parse does not return the identical value.'),
-    ('C1-narrowing-in-range',
-     'osmium::Timestamp::(ctor)#long->unsignedint:osmium::detail::parse_timestamp()',
-     'Timestamp(const char*) casts the time_t of parse_timestamp to uint32_t without a range test: parse_timestamp accepts every '
-     'year 1900..9999, so "2106-02-07T06:28:16Z" (2^32 s) becomes 0 (an invalid Timestamp), "1969-12-31T23:59:59Z" becomes '
-     '4294967295 (2106-02-07T06:28:15Z); out-of-range timestamp strings yield a wrong value instead of std::invalid_argument.'),
+    # (rule, key, explanation) -- genuine findings on the pristine tree.  None at present.  History (all fixed in /repo, each
+    # revert is a seeded mutant `fix-F*-reverted-*`):
+    #   F6  A1 string_to_location_coordinate#acc1.loop4:x*10   unbounded `result *= 10` ("1e63" accepted as 0)       fixed 7a274a7
+    #   F17 N1 OutputBlock::output_int#neg1                     `-value` for INT64_MIN wrote "-("                       fixed bb05cce
+    #   F18 C1 Timestamp::(ctor)#long->unsignedint:osmium::detail::parse_timestamp()  unchecked time_t -> uint32_t      fixed 827f3db
+    #       (the range test lives inside parse_timestamp; C1 sees it through the callee's return-value interval)
 ]
 
 EXPLANATION = (
@@ -831,9 +821,7 @@ def run(ctx):
             if not any(f.q == need for f in fns):
                 R.broken('anchor %s not found in the fact base (%s %s)' % (need, '+'.join(drivers), cfg))
         all_rules(fb, R, fns)
-    # floors = instances confirmed by reading, *not counting* the three that fire today (KNOWN): a repository fix may
-    # legitimately remove those constructs (e.g. an unsigned formatter without a negation)
-    R.expect('A1-accum-bounded', 9)           # coordinate parser 3 (+1: scaling loop, F6), opl_parse_int 2, opl_parse_escaped 4
+    R.expect('A1-accum-bounded', 10)          # coordinate parser 4 (int digits, fraction, exponent digits, scale-up), opl_parse_int 2, opl_parse_escaped 4
     R.expect('S1-strto-range-rejected', 3)    # string_to_object_id, string_to_ulong, str_to_int
     R.expect('S2-strto-trailing-rejected', 3)
     R.expect('S3-strto-no-digits-rejected', 2)       # the two throwing wrappers
@@ -841,8 +829,8 @@ def run(ctx):
     R.expect('S5-strtoul-minus-rejected', 1)         # string_to_ulong (the only strtoul site)
     R.expect('A2-scale-down-complete', 1)            # the negative-exponent loop of the coordinate parser
     R.expect('L1-coordinate-fully-consumed', 2)      # set_lon, set_lat (const char*)
-    R.expect('N1-negation-excludes-minimum', 2)      # coordinate formatter, opl_parse_int (+1: output_int, finding)
-    R.expect('C1-narrowing-in-range', 6)      # coordinate parser, string_to_ulong, str_to_int x3, opl_parse_int<uint32> (+1: Timestamp(const char*), finding)
+    R.expect('N1-negation-excludes-minimum', 2)      # coordinate formatter, opl_parse_int (output_int works on the unsigned magnitude since bb05cce)
+    R.expect('C1-narrowing-in-range', 7)      # coordinate parser, string_to_ulong, str_to_int x3, opl_parse_int<uint32>, Timestamp(const char*)
     R.expect('D1-digit-validated', 19)        # parse_timestamp 14, coordinate parser 1 (5 sites, one text), opl_parse_int 1, opl_parse_escaped 3
     R.expect('T1-array-index-in-range', 1)    # mon_lengths[tm.tm_mon]
 
